@@ -490,8 +490,18 @@ let exec (toks : string list) =
        if act = "info" then
          addsp ("pfx=" ^ pp (Inst.t_vm_prefix t v) ^ " val=" ^ popt (Views.vm_value t v)
                 ^ " hl=" ^ pbool (Inst.t_vm_has_left !w t v) ^ " hr=" ^ pbool (Inst.t_vm_has_right !w t v))
-       else if act = "ro" then
-         addsp ("iter=" ^ plist ppair (drop3 (Views.v_iter (Views.vm_view t v))))
+       else if act = "ro" then begin
+         let rv = Views.vm_view t v in
+         let items = drop3 (Views.v_iter rv) in
+         let side o = (match o with None -> "-" | Some v' -> pp (Inst.t_v_prefix v')) in
+         addsp ("pfx=" ^ pp (Inst.t_v_prefix rv) ^ " val=" ^ popt (Views.v_value rv)
+                ^ " pv=" ^ ppair_opt (Views.v_prefix_value rv)
+                ^ " iter=" ^ plist ppair items
+                ^ " keys=" ^ plist (fun (p, _) -> pp p) items
+                ^ " vals=" ^ plist (fun (_, v) -> string_of_int v) items
+                ^ " l=" ^ side (Inst.t_v_left !w rv) ^ " r=" ^ side (Inst.t_v_right !w rv)
+                ^ " at=1")
+       end
        else if starts act "set:" then begin
          let x = int_of_string (after act "set:") in
          (match v.Views.mvirt, Views.vm_tree t v with
